@@ -6,10 +6,10 @@ Import ListNotations.
 Local Open Scope N_scope.
 
 (* The full statement — for every cache geometry and every history of stores,
-   lookups (GetChunk / GetChunkSlice) and restarts (any segment order, leveldb
-   rebuilt or not), every answer the model admits for a lookup is empty or what
-   a store FOR THE SAME FILE ID allows — is false: the disk tiers are keyed by
-   the needle key only (finding 0). *)
+   lookups (GetChunk / GetChunkSlice) and restarts (any segment order, each
+   segment's leveldb rebuilt or not), every answer the model admits for a lookup is
+   empty or what a store FOR THE SAME FILE ID allows — is false: the disk tiers are
+   keyed by the needle key only (finding 0). *)
 Theorem c31_transparent_refuted : ~ transparent_full.
 Proof. exact transparent_refuted. Qed.
 Print Assumptions c31_transparent_refuted.
@@ -21,12 +21,69 @@ Theorem c31_witness :
 Proof. exact witness_facts. Qed.
 Print Assumptions c31_witness.
 
-(* PARTIAL: it holds for every history in which no two distinct file ids share a
-   needle key (which one SeaweedFS cluster guarantees: C13). *)
+(* FULL, no hypothesis: transparent modulo the needle key.  Every admitted answer
+   of every lookup of every history is empty, or what an earlier store allows whose
+   file id is the same or has the same needle key; "allows" is the property's
+   [expected] (the answer has at least the minimum size and is exactly the stored
+   bytes / the leading [len] bytes of the window) whenever the minimum size is
+   below 2^63, and the stored bytes / the truncated window otherwise; nothing is
+   claimed for a GetChunkSlice whose offset is 2^63 or more (finding 2). *)
+Theorem c31_transparent_modulo_key : forall p ops,
+  all_from explained [] ops (run p init_state ops) = true.
+Proof. exact explained_full. Qed.
+Print Assumptions c31_transparent_modulo_key.
+
+(* PARTIAL, per lookup (no hypothesis on the history): the property's own statement
+   holds at every lookup that is not preceded by a store for ANOTHER file id with
+   the same needle key and whose minimum size is below 2^63. *)
+Theorem c31_transparent_partial_step : forall p ops,
+  all_from narrow_answer [] ops (run p init_state ops) = true.
+Proof. exact transparent_narrow. Qed.
+Print Assumptions c31_transparent_partial_step.
+
+Theorem c31_narrow_answer_spec : forall stored o r,
+  narrow_answer stored o r = true -> alias_before stored o = false -> op_big o = false ->
+  transparent_answer stored o r = true.
+Proof. exact narrow_spec. Qed.
+Print Assumptions c31_narrow_answer_spec.
+
+(* PARTIAL, history-wide: for every history in which no two distinct file ids share
+   a needle key (which one SeaweedFS cluster guarantees: C13) and every minimum size
+   is below 2^63. *)
 Theorem c31_transparent_partial : forall p ops,
-  keys_unique ops = true -> transparent_from [] ops (run p init_state ops) = true.
+  keys_unique ops = true -> no_big ops = true ->
+  transparent_from [] ops (run p init_state ops) = true.
 Proof. exact transparent_partial. Qed.
 Print Assumptions c31_transparent_partial.
+
+(* unique keys alone are not enough (finding 1): int(minSize) is negative from 2^63
+   on, so GetChunk(id, 2^63) returns a 5-byte chunk *)
+Theorem c31_unique_keys_refuted : ~ transparent_unique_keys.
+Proof. exact unique_keys_refuted. Qed.
+Print Assumptions c31_unique_keys_refuted.
+
+Theorem c31_witness1 :
+  keys_unique w1_ops = true /\ no_big w1_ops = false /\
+  run w1_params init_state w1_ops = [[]; [[104; 101; 108; 108; 111]]].
+Proof. exact witness1_facts. Qed.
+Print Assumptions c31_witness1.
+
+(* finding 2: a slice offset from 2^63 on is a negative int(offset): the memory
+   tier panics ([panic_mark]), a disk tier returns bytes in front of the chunk *)
+Theorem c31_witness2 :
+  keys_unique w2_ops = true /\ hist_ok w2_ops = true /\
+  run w2_params init_state w2_ops = [[]; []; [[0; 88]; panic_mark]; []; [[101; 0; 0; 0; 88; 89]]] /\
+  transparent_from [] w2_ops (run w2_params init_state w2_ops) = false.
+Proof. exact witness2_facts. Qed.
+Print Assumptions c31_witness2.
+
+(* GetChunkSlice with an offset above 0 never hits (every tier hands back at most
+   [length] bytes, the result is tested against offset + length): the cache is
+   dead for such reads, hence trivially transparent *)
+Theorem c31_slice_offset_dead : forall p st md f off len,
+  0 < off -> off + len < two63 -> get_slice_with p st md f off len = [].
+Proof. exact slice_dead. Qed.
+Print Assumptions c31_slice_offset_dead.
 
 (* The invariant behind it, for any state: everything held by the memory tier
    or by a disk segment was stored, under a file id with that needle key. *)
@@ -37,27 +94,70 @@ Print Assumptions c31_invariant_step.
 
 (* The correspondence relation: an implementation answer is accepted iff the
    model admits it; the answer with the memory entry evicted is always admitted;
-   and every accepted answer is transparent under unique keys. *)
+   every accepted answer is explained / transparent at clean lookups; under the
+   history-wide hypotheses every accepted answer is transparent. *)
 Theorem c31_miss_admitted : forall p st f m,
   In (get_with p st None f m) (answers p st (Get f m)).
 Proof. exact miss_admitted. Qed.
 Print Assumptions c31_miss_admitted.
 
+Theorem c31_admitted_explained : forall p ops impl,
+  admitted_all ops (run p init_state ops) impl = true ->
+  impl_from explained [] ops impl = true /\ impl_from narrow_answer [] ops impl = true.
+Proof. exact admitted_explained. Qed.
+Print Assumptions c31_admitted_explained.
+
 Theorem c31_admitted_hit_is_spec : forall p ops impl,
-  keys_unique ops = true -> admitted_all ops (run p init_state ops) impl = true ->
+  keys_unique ops = true -> no_big ops = true ->
+  admitted_all ops (run p init_state ops) impl = true ->
   impl_transparent [] ops impl = true.
 Proof. exact admitted_hit_is_spec. Qed.
 Print Assumptions c31_admitted_hit_is_spec.
 
+(* The check's trigger is exact: a failure the model reproduces is always labelled
+   with finding 0, 1 or 2 AT THE FAILING LOOKUP (the alias store / the minimum size
+   from 2^63 on must explain that very answer; finding 2 needs the slice offset of
+   that lookup to be 2^63 or more); anything else gets no trigger. *)
+Theorem c31_trigger_total : forall p ops impl,
+  admitted_all ops (run p init_state ops) impl = true ->
+  Nat.leb (List.length ops) (List.length impl) = true ->
+  impl_transparent [] ops impl = false -> trigger ops impl <> None.
+Proof. exact trigger_total. Qed.
+Print Assumptions c31_trigger_total.
+
+(* a fid whose stores all carry the same contents: the answer is what THAT content
+   allows (the disk tiers can hold stale contents of a file id: the statement above
+   accepts any earlier store; with one content per file id nothing is stale) *)
+Theorem c31_single_content : forall stored o f d r,
+  op_fid o = Some f -> (forall x, In (f, x) stored -> x = d) ->
+  transparent_answer stored o r = true -> r = [] \/ expected o d = Some r.
+Proof. exact single_content. Qed.
+Print Assumptions c31_single_content.
+
 (* non-vacuity: a history with unique keys that rotates tier 0 (segments of 32
-   bytes), restarts with the leveldb rebuilt (records at offset 0 are lost), and
-   still answers from disk *)
+   bytes), restarts with the leveldb of every segment rebuilt (records at offset 0
+   are lost), and still answers from disk *)
 Example c31_example :
   let p := {| unit_size := 16; disk_units := 32 |} in
   let a := Fid 3 1 7 in let b := Fid 3 2 8 in let c := Fid 4 3 9 in
   let ops := [Store a [1; 2; 3; 4; 5; 6; 7; 8; 9]; Store b [10; 11; 12; 13; 14; 15; 16; 17; 18; 19];
-              Store c [20; 21; 22]; Restart true [0; 1] [0; 1; 2] [0; 1];
+              Store c [20; 21; 22];
+              Restart [(0, true); (1, true)] [(0, true); (1, true); (2, true)] [(0, true); (1, true)];
               Get a 1; Get b 4; Get c 1; GetSlice b 0 3] in
-  keys_unique ops = true /\
+  keys_unique ops = true /\ no_big ops = true /\ hist_ok ops = true /\
   run p init_state ops = [[]; []; []; []; [[]]; [[10; 11; 12; 13; 14; 15; 16; 17; 18; 19]]; [[]]; [[10; 11; 12]]].
-Proof. vm_compute. split; reflexivity. Qed.
+Proof. exact example_facts. Qed.
+Print Assumptions c31_example.
+
+(* mixed restart: only segment 1 of tier 0 is rebuilt; segment 1 is the segment
+   written first, so [a] (offset 0 there) is lost while [b] (offset 8) survives *)
+Example c31_example_mixed :
+  let p := {| unit_size := 16; disk_units := 32 |} in
+  let a := Fid 3 1 7 in let b := Fid 3 2 8 in
+  let ops := [Store a [1; 2; 3]; Store b [4; 5; 6];
+              Restart [(1, true); (0, false)] [(0, false); (1, false); (2, false)] [(0, false); (1, false)];
+              Get a 1; Get b 1] in
+  hist_ok ops = true /\
+  run p init_state ops = [[]; []; []; [[]]; [[4; 5; 6]]].
+Proof. exact example_mixed_facts. Qed.
+Print Assumptions c31_example_mixed.
